@@ -635,6 +635,66 @@ class OtherGraders(GraderFamily):
         raise HarnessError('unknown grader label %r' % (label,))
 
 
+HIST_ATTEMPTS = ['absent', None, 1, 3, 7, 0]
+
+
+def _hist_make(kind, sched):
+    from mitxgraders import LinearCredit, GeometricCredit
+    credit = {'linear': LinearCredit(decrease_credit_after=1), 'geometric': GeometricCredit(factor=0.5),
+              'ramp': (lambda n: max(0.0, 1 - 0.25 * (n - 1)))}[sched]
+    if kind == 'string':
+        return StringGrader(answers=('cat', {'expect': 'dog', 'grade_decimal': 0.5}), attempt_based_credit=credit), ['cat', 'dog', 'emu']
+    if kind == 'list':
+        return (ListGrader(answers=['cat', {'expect': 'dog', 'grade_decimal': 0.5}], subgraders=StringGrader(),
+                           attempt_based_credit=credit), [['cat', 'dog'], ['dog', 'x']])
+    return (SingleListGrader(answers=['a', 'b'], subgrader=StringGrader(), attempt_based_credit=credit), ['a,b', 'a,z'])
+
+
+def _hist_call(g, inp, att):
+    try:
+        if att == 'absent':
+            return ('ok', g(None, copy.deepcopy(inp)))
+        return ('ok', g(None, copy.deepcopy(inp), attempt=att))
+    except Exception as e:
+        return ('err', type(e).__name__)
+
+
+class AttemptHistory(Family):
+    """the attempt number of one call must not carry over to the next call on the same grader object"""
+    name = 'attempt_history'
+    rule = ('grader kinds {String, List, SingleList} x schedules {Linear, Geometric, author ramp} x every sequence of 2 [thorough 3] '
+            'calls over attempts {absent, None, 1, 3, 7, 0} x inputs on ONE grader object: each call must give what a fresh grader '
+            'gives for that call alone (in particular: no attempt number -> ConfigError even after a call that supplied one)')
+
+    def cases(self, tier):
+        n = 3 if tier == 'thorough' else 2
+        for kind in ('string', 'list', 'singlelist'):
+            for sched in ('linear', 'geometric', 'ramp'):
+                for seq in itertools.product(range(len(HIST_ATTEMPTS)), repeat=n):
+                    yield (kind, sched, seq)
+
+    def check(self, case):
+        kind, sched, seq = case
+        g, inputs = _hist_make(kind, sched)
+        calls = 0
+        outcomes = set()
+        for step, ai in enumerate(seq):
+            att = HIST_ATTEMPTS[ai]
+            inp = inputs[step % len(inputs)]
+            got = _hist_call(g, inp, att)
+            fresh, _ = _hist_make(kind, sched)
+            exp = _hist_call(fresh, inp, att)
+            calls += 2
+            outcomes.add(exp[0] if exp[0] == 'err' else 'graded')
+            if got != exp:
+                return Result('differs', True,
+                              viol('history:%s' % ('missing-attempt-not-refused-after-earlier-call' if exp[0] == 'err' and got[0] == 'ok'
+                                                   else 'call-depends-on-earlier-attempt'),
+                                   '%s grader, %s schedule, attempts %r: call %d (input %r, attempt %r) gave %r; a fresh grader gives %r'
+                                   % (kind, sched, [HIST_ATTEMPTS[i] for i in seq], step + 1, inp, att, got, exp), exp, got), calls)
+        return Result('+'.join(sorted(outcomes)), len(outcomes) > 1, None, calls)
+
+
 def families(tier):
     nmax = {'quick': 200, 'thorough': 200}
     fams = [
@@ -653,4 +713,4 @@ def families(tier):
                        'ReciprocalCredit x attempts 1..200 (thorough 1..5000) against exactly 1/n'),
     ]
     graders = [StringBuiltin(), TableCustom(), ListVectors(), RawResults(), OtherGraders()]
-    return fams + graders + [FeatureOff(graders)]
+    return fams + graders + [FeatureOff(graders), AttemptHistory()]
